@@ -4,6 +4,7 @@ use crate::core::{Acc, CaseResult, ShardCtx};
 use serde_json::Value;
 
 pub mod c01;
+pub mod c02;
 pub mod c03;
 pub mod c04;
 pub mod c05;
@@ -40,7 +41,7 @@ pub struct PropDef {
 }
 
 pub fn all() -> Vec<PropDef> {
-    vec![c01::def(), c03::def(), c04::def(), c05::def(), c06::def(), c07::def(), c08::def(), c09::def(), c10::def(), c11::def(), c12::def(), c13::def(), c14::def(), c15::def(), c16::def(), c17::def(), c18::def(), c19::def(), c20::def()]
+    vec![c01::def(), c02::def(), c03::def(), c04::def(), c05::def(), c06::def(), c07::def(), c08::def(), c09::def(), c10::def(), c11::def(), c12::def(), c13::def(), c14::def(), c15::def(), c16::def(), c17::def(), c18::def(), c19::def(), c20::def()]
 }
 
 pub fn find(id: &str) -> Option<PropDef> {
